@@ -20,8 +20,8 @@
 (* MC_IncSession_gen*.cfg print every history together with the outcomes the law allows and the  *)
 (* pool the caller must still see after every call; MC_IncSession_sim.cfg draws longer ones.     *)
 (* MC_IncSession_quick.cfg does both in one run (clauses checked on every history, no VIEW);      *)
-(* so do _edit / _names / _reals (quick slices of the round-4 dimensions) and their thorough      *)
-(* variants _editT / _namesT.  MC_IncSession_thorough.cfg checks the VIEW quotient (hist hidden)  *)
+(* so do _edit / _namesreals (quick slices of the round-4 dimensions) and their thorough          *)
+(* variants _editT / _namesT / _reals.  MC_IncSession_thorough.cfg checks the VIEW quotient (hist hidden)  *)
 (* with 3 filters per call.                                                                       *)
 (* cfg MC_IncSession_adopt.cfg (Adopt = TRUE, `filters` is the caller's lone dict) must violate  *)
 (* PoolUntouched: the model is able to express what it forbids.                                  *)
@@ -99,7 +99,7 @@ PoolsThorough == PoolsQuick \cup PoolsMore
 TableSet == CASE Scope = "quick" -> {G6, Empty2, Single}
               [] Scope = "edit"  -> {G6}
               [] Scope = "editT" -> {G6, Dup}
-              [] Scope \in {"names", "reals"} -> {G6, Empty2, Single}
+              [] Scope \in {"names", "reals", "names+reals"} -> {G6, Empty2, Single}
               [] OTHER -> {G4, G8, Dup, Empty2, Single}
 PoolSet  == CASE Scope = "quick" -> PoolsQuick
               [] Scope = "edit"  -> PoolsEdit
@@ -146,7 +146,9 @@ Called == last.call.op # ""
 LawLast == Outcomes(opd, last.args, last.call)
 Chainable == Called /\ Cardinality(LawLast) = 1 /\ \A o \in LawLast : o.kind = "table"
 
-Init == /\ t \in TableSet /\ pool0 \in PoolSet /\ pool = pool0 /\ prev = pool0 /\ nm \in NameIds
+\* Scope "names+reals": the naming pools under every naming of NameIds, and every realisation under the plain naming and one other
+Cases == IF Scope = "names+reals" THEN (PoolsNames \X NameIds) \cup (PoolsReals \X {0, 3}) ELSE PoolSet \X NameIds
+Init == /\ t \in TableSet /\ (\E cs \in Cases : pool0 = cs[1] /\ nm = cs[2]) /\ pool = pool0 /\ prev = pool0
         /\ last = [call |-> NoCall, out |-> [kind |-> "none"], echo |-> "", n |-> 0, e |-> 0, dirty |-> FALSE, touched |-> {}, args |-> pool0]
         /\ opd = t /\ hist = <<>>
 
